@@ -629,6 +629,48 @@ def r02_9(run):
     run.count("stores through reshape/ravel temporaries", n)
 
 
+_REC_CONV = {"asarray", "array", "asanyarray", "ascontiguousarray", "astype", "bool", "int", "float", "tuple", "list"}
+
+
+def r02_10(run):
+    """the forward kernel consumes the value the op records for its backward pass.  When __call__ converts a parameter and keeps the converted
+    value on self (`self.condition = np.asarray(condition, dtype=bool)`), backward differentiates w.r.t. *that* value; if the kernel is handed
+    the raw parameter instead, the two passes can disagree (a float mask [0.5, 1, 0] is truthy forward but a different boolean/number backward)
+    and a Tensor-valued parameter reaches NumPy raw and is dispatched back to mygrad (unbounded recursion)."""
+    n = 0
+    for c in run.project.concrete_ops():
+        m = c.methods.get("__call__")
+        if m is None:
+            continue
+        params = {a_.arg for a_ in m.node.args.args[1:] + m.node.args.kwonlyargs}
+        v = opcontract_variables(run, c)
+        for st in own_nodes(m.node):
+            if not (isinstance(st, ast.Assign) and len(st.targets) == 1 and isinstance(st.targets[0], ast.Attribute)
+                    and norm(st.targets[0].value) == "self" and isinstance(st.value, ast.Call)):
+                continue
+            leaf = (dotted(st.value.func) or "").split(".")[-1] or getattr(st.value.func, "attr", "")
+            if leaf not in _REC_CONV:
+                continue
+            for p_ in [a_.id for a_ in st.value.args if isinstance(a_, ast.Name) and a_.id in params and a_.id not in v]:
+                if any(isinstance(x, ast.Name) and x.id == p_ and isinstance(x.ctx, ast.Store) for x in own_nodes(m.node)):
+                    continue  # the parameter itself is re-bound: later uses see the converted value
+                n += 1
+                raw = [x for x in own_nodes(m.node) if isinstance(x, ast.Call) and x is not st.value and any(
+                    isinstance(a_, ast.Name) and a_.id == p_ for a_ in list(x.args) + [k.value for k in x.keywords])
+                    and (dotted(x.func) or "").split(".")[0] in ("np", "numpy")]
+                run.ob("R02.10", loc(m, raw[0] if raw else st), m.short, f"the kernel uses self.{st.targets[0].attr}, the recorded conversion of `{p_}`", not raw,
+                       f"`{p_}` reaches NumPy only through its recorded conversion" if not raw else
+                       f"`{norm(raw[0])[:60]}` receives the raw `{p_}` although backward reads self.{st.targets[0].attr} = {leaf}({p_}, ...): the passes can "
+                       f"disagree, and a Tensor-valued `{p_}` recurses through NumPy's dispatch")
+    run.count("recorded parameter conversions", n)
+
+
+def opcontract_variables(run, c):
+    from . import opcontract
+    v = opcontract.variables_of(run, c)
+    return set(v.params) if v is not None and not v.star else set()
+
+
 def check(run):
     run.rule("R02.1", "derivative-table agreement in the term domain: for every closed-form op and operand k, the symbolic term of "
              "backward_var|index=k equals g * d(forward term)/dx_k at exact sample points of the kernel's domain (and simplifies to 0 where "
@@ -653,6 +695,8 @@ def check(run):
     run.control("R02.9", r02_9, [("math/sequential/ops.py", None, None,
                                   "def _verif_control_r02_9(a, g):\n    out = np.zeros_like(a)\n    out.reshape(-1)[0] = g\n    return out")],
                 "write through out.reshape(-1) of a zeros_like buffer")
+    run.rule("R02.10", "a parameter whose conversion is recorded for backward reaches the forward kernel through that recorded value", floor=1)
+    run.do(r02_10)
     run.rule("R02.7", "log-domain family (logaddexp, logaddexp2, softmax, logsoftmax, sigmoid, softmax-crossentropy, _softmax, logsumexp, gru.sig): "
              "finite operands and gradients give finite, nan-free forward values and gradients (extended-sign abstract interpretation of exp over/underflow)", floor=14)
     run.do(r02_7)
